@@ -221,6 +221,76 @@ struct FnValue : Fn {
     return Val{v.x + 1};
   }
 };
+// unwrapping functors: return a Future (flattened by the step); kind Throws throws before producing it
+struct FnValueU : Fn {
+  using Fn::Fn;
+  yaclib::Future<Val, Err> operator()(Val&& v) && {
+    gFn.Use(this, "call");
+    Mark("call " + std::to_string(id));
+    if (kind == Kind::Throws) {
+      throw 7;
+    }
+    return yaclib::MakeFuture<Val, Err>(Val{v.x + 1});
+  }
+};
+struct FnResultU : Fn {
+  using Fn::Fn;
+  yaclib::Future<Val, Err> operator()(R&& r) && {
+    gFn.Use(this, "call");
+    Mark("call " + std::to_string(id));
+    if (kind == Kind::Throws) {
+      throw 7;
+    }
+    return yaclib::MakeFuture<Val, Err>(Val{r ? std::move(r).Value().x + 1 : -1});
+  }
+};
+// the same four for a SharedFuture source (the argument is a const reference to the shared result)
+struct FnValueS : Fn {
+  using Fn::Fn;
+  Val operator()(const Val& v) && {
+    gFn.Use(this, "call");
+    gVal.Use(&v, "read by a continuation");
+    Mark("call " + std::to_string(id));
+    if (kind == Kind::Throws) {
+      throw 7;
+    }
+    return Val{v.x + 1};
+  }
+};
+struct FnResultS : Fn {
+  using Fn::Fn;
+  Val operator()(const R& r) && {
+    gFn.Use(this, "call");
+    Mark("call " + std::to_string(id));
+    if (kind == Kind::Throws) {
+      throw 7;
+    }
+    return Val{r ? r.Value().x + 1 : -1};
+  }
+};
+struct FnValueUS : Fn {
+  using Fn::Fn;
+  yaclib::Future<Val, Err> operator()(const Val& v) && {
+    gFn.Use(this, "call");
+    gVal.Use(&v, "read by a continuation");
+    Mark("call " + std::to_string(id));
+    if (kind == Kind::Throws) {
+      throw 7;
+    }
+    return yaclib::MakeFuture<Val, Err>(Val{v.x + 1});
+  }
+};
+struct FnResultUS : Fn {
+  using Fn::Fn;
+  yaclib::Future<Val, Err> operator()(const R& r) && {
+    gFn.Use(this, "call");
+    Mark("call " + std::to_string(id));
+    if (kind == Kind::Throws) {
+      throw 7;
+    }
+    return yaclib::MakeFuture<Val, Err>(Val{r ? r.Value().x + 1 : -1});
+  }
+};
 struct FnFinal : Fn {  // for Detach*: returns void
   using Fn::Fn;
   void operator()(R&& r) && {
@@ -412,6 +482,107 @@ void RunScenario(const Params& p) {
   }
 }
 
+// ---- family B: a SharedFuture source observed through continuations (plain and unwrapping) while handles stay alive
+struct ParamsB {
+  int src;    // 0 value, 1 error, 2 exception
+  int mode;   // 0 ThenInline, 1 Then(accepting executor), 2 Then(rejecting executor)
+  int fk;     // 0 value->Val, 1 Result->Val, 2 value->Future, 3 Result->Future
+  int thr;    // functor throws
+};
+
+void RunShared(const ParamsB& p) {
+  gFn.Reset();
+  gVal.Reset();
+  vrt::g.trace_unknown = false;
+  CountingInline alive{true};
+  CountingInline stopped{false};
+  std::memset(gTable, 0, sizeof(gTable));
+  gLiveBlocks = 0;
+  gInExecution = true;
+  long seen_again = -2;
+  {
+    auto [sf, sp] = [] {
+      Count cnt;
+      return yaclib::MakeSharedContract<Val, Err>();
+    }();
+    auto keep = sf;  // a second handle that outlives everything else
+    yaclib_std::thread tp([&, sp = std::move(sp)]() mutable {
+      vrt::NameThread("P");
+      Count cnt;
+      switch (p.src) {
+        case 0:
+          std::move(sp).Set(Val{1});
+          break;
+        case 1:
+          std::move(sp).Set(Err{5});
+          break;
+        default:
+          std::move(sp).Set(std::make_exception_ptr(7));
+          break;
+      }
+    });
+    yaclib_std::thread tc([&, sf = std::move(sf)]() mutable {
+      vrt::NameThread("C");
+      const Kind k = p.thr ? Kind::Throws : (p.fk % 2 == 0 ? Kind::TakesValue : Kind::TakesResult);
+      auto& ex = p.mode == 1 ? alive : stopped;
+      auto finish = [&](auto f2) {
+        Count cnt;
+        R r = std::move(f2).Get();
+        (void)r;
+      };
+      Count cnt;
+      switch (p.fk) {
+        case 0:
+          p.mode == 0 ? finish(sf.ThenInline(FnValueS{1, k})) : finish(sf.Then(ex, FnValueS{1, k}).On(nullptr));
+          break;
+        case 1:
+          p.mode == 0 ? finish(sf.ThenInline(FnResultS{1, k})) : finish(sf.Then(ex, FnResultS{1, k}).On(nullptr));
+          break;
+        case 2:
+          p.mode == 0 ? finish(sf.ThenInline(FnValueUS{1, k})) : finish(sf.Then(ex, FnValueUS{1, k}).On(nullptr));
+          break;
+        default:
+          p.mode == 0 ? finish(sf.ThenInline(FnResultUS{1, k})) : finish(sf.Then(ex, FnResultUS{1, k}).On(nullptr));
+          break;
+      }
+    });
+    tp.join();
+    tc.join();
+    {
+      // the surviving handle must still see the value that was set
+      Count cnt;
+      const R& again = keep.Get();
+      seen_again = again ? again.Value().x : -1;
+      if (again) {
+        gVal.Use(&again.Value(), "read through a surviving SharedFuture");
+      }
+    }
+  }
+  gInExecution = false;
+  for (void* q : gQuarantine) {
+    std::free(q);
+  }
+  gQuarantine.clear();
+  if (p.src == 0 && seen_again != 1) {
+    vrt::Fail("a surviving SharedFuture read " + std::to_string(seen_again) + " but 1 was set");
+  }
+  for (auto& e : gFn.errors) {
+    vrt::Fail("functor: " + e);
+  }
+  for (auto& e : gVal.errors) {
+    vrt::Fail("value: " + e);
+  }
+  if (!gFn.live.empty()) {
+    vrt::Fail(std::to_string(gFn.live.size()) + " functor instance(s) never destroyed");
+  }
+  if (!gVal.live.empty()) {
+    vrt::Fail(std::to_string(gVal.live.size()) + " value instance(s) never destroyed");
+  }
+  if (gLiveBlocks != 0) {
+    vrt::Fail("allocation balance at quiescence is " + std::to_string(gLiveBlocks) + " blocks");
+  }
+}
+
 }  // namespace
 
 void* operator new(std::size_t n) {
@@ -486,6 +657,20 @@ int main(int argc, char** argv) {
           m.Scenario(name, [p] {
             RunScenario(p);
           });
+        }
+      }
+    }
+  }
+  for (int src = 0; src < 3; ++src) {
+    for (int mode = 0; mode < 3; ++mode) {
+      for (int fk = 0; fk < 4; ++fk) {
+        for (int thr = 0; thr < 2; ++thr) {
+          ParamsB p{src, mode, fk, thr};
+          m.Scenario("shared/s" + std::to_string(src) + "m" + std::to_string(mode) + "k" + std::to_string(fk) + "t" +
+                       std::to_string(thr),
+                     [p] {
+                       RunShared(p);
+                     });
         }
       }
     }
